@@ -14,7 +14,7 @@
    rules are the hypotheses of C20_transparent; C20_transparent_unnested discharges them for every
    mount that has nothing registered inside its subtree. *)
 From Coq Require Import List NArith Bool Arith.
-From Larking Require Import Model.Mount Spec.MountSpec Proofs.MountProofs.
+From Larking Require Import Model.Mount Spec.MountSpec Proofs.MountProofs Proofs.MountTlsProofs.
 Import ListNotations.
 
 (* A request to prefix+path under a configured mount prefix gets exactly the response the bare mux gives
@@ -227,3 +227,31 @@ Proof. vm_compute. discriminate. Qed.
 
 Example wf_cfg : wf_options cfg.
 Proof. apply C20_options_validated. destruct accepted as [srv [H _]]. exists srv. exact H. Qed.
+
+(* ---- TLSCredsOption ---- *)
+(* A TLS configuration says how the listener is wrapped, not what the handler serves: wherever the option stands, every
+   path is answered as by the server built without it -- the mux with the same stripped path, the same 404s and
+   redirects, the same extra handler; only that the options behind it are counted one later (rl_obs renumbers
+   ToExtra: an extra handler's identity in the model is the position of its option). *)
+Theorem C20_tls_option_transparent : forall nm pre post path,
+  run_case nm (pre ++ OTLS :: post) path = rl_obs (length pre) (run_case nm (pre ++ post) path).
+Proof. exact run_case_tls. Qed.
+Print Assumptions C20_tls_option_transparent.
+
+(* in particular what reaches the mux, and with which path, does not depend on it *)
+Theorem C20_tls_keeps_mux_requests : forall nm pre post path x,
+  run_case nm (pre ++ post) path = ObsResp (ToMux x) <-> run_case nm (pre ++ OTLS :: post) path = ObsResp (ToMux x).
+Proof.
+  intros nm pre post path x. rewrite run_case_tls.
+  destruct (run_case nm (pre ++ post) path) as [| | |r]; cbn [rl_obs]; try (split; discriminate).
+  destruct r; cbn [rl_resp]; split; intros H; try discriminate; exact H.
+Qed.
+Print Assumptions C20_tls_keeps_mux_requests.
+
+Example tls_instance :
+  let api := [47;97;112;105;47]%N in let met := [47;109]%N in
+  run_case false [OTLS; OMux (Some [api]); OHandler met false] (api ++ [120]%N) = ObsResp (ToMux [47;120]%N) /\
+  run_case false [OTLS; OMux (Some [api]); OHandler met false] met = ObsResp (ToExtra 2 met) /\
+  run_case false [OMux (Some [api]); OHandler met false] met = ObsResp (ToExtra 1 met) /\
+  run_case false [OTLS; OMux (Some [api]); OHandler met false] [47;120]%N = ObsResp NotFound.
+Proof. vm_compute. repeat split. Qed.
